@@ -89,11 +89,11 @@ fn on_enum(inp: &mut syn::DeriveInput) -> syn::Result<proc_macro2::TokenStream> 
         let row = match &var.fields {
             syn::Fields::Unit => if index_only {
                 quote! {
-                    #name::#con => { #idx.cbor_len(__ctx777) }
+                    #name::#con => { (#idx as u32).cbor_len(__ctx777) }
                 }
             } else {
                 quote! {
-                    #name::#con => { 1 + #idx.cbor_len(__ctx777) + #tag + 1 }
+                    #name::#con => { 1 + (#idx as u32).cbor_len(__ctx777) + #tag + 1 }
                 }
             }
             syn::Fields::Named(f) if index_only => {
@@ -104,10 +104,10 @@ fn on_enum(inp: &mut syn::DeriveInput) -> syn::Result<proc_macro2::TokenStream> 
                 let idents = fields.fields().idents();
                 match encoding {
                     Encoding::Map => quote! {
-                        #name::#con{#(#idents,)* ..} => { 1 + #idx.cbor_len(__ctx777) + #tag + #(#steps)* }
+                        #name::#con{#(#idents,)* ..} => { 1 + (#idx as u32).cbor_len(__ctx777) + #tag + #(#steps)* }
                     },
                     Encoding::Array => quote! {
-                        #name::#con{#(#idents,)* ..} => { #(#steps)* + #tag + 1 + #idx.cbor_len(__ctx777) }
+                        #name::#con{#(#idents,)* ..} => { #(#steps)* + #tag + 1 + (#idx as u32).cbor_len(__ctx777) }
                     }
                 }
             }
@@ -119,10 +119,10 @@ fn on_enum(inp: &mut syn::DeriveInput) -> syn::Result<proc_macro2::TokenStream> 
                 let idents = fields.match_idents();
                 match encoding {
                     Encoding::Map => quote! {
-                        #name::#con(#(#idents,)*) => { 1 + #idx.cbor_len(__ctx777) + #tag + #(#steps)* }
+                        #name::#con(#(#idents,)*) => { 1 + (#idx as u32).cbor_len(__ctx777) + #tag + #(#steps)* }
                     },
                     Encoding::Array => quote! {
-                        #name::#con(#(#idents,)*) => { #(#steps)* + #tag + 1 + #idx.cbor_len(__ctx777) }
+                        #name::#con(#(#idents,)*) => { #(#steps)* + #tag + 1 + (#idx as u32).cbor_len(__ctx777) }
                     }
                 }
             }
@@ -187,7 +187,7 @@ fn on_fields(fields: &Fields, has_self: bool, encoding: Encoding) -> syn::Result
                             + if #is_nil(&self.#ident) {
                                 0
                             } else {
-                                #idx.cbor_len(__ctx777) + #tag + #cbor_len(&self.#ident, __ctx777)
+                                (#idx as u32).cbor_len(__ctx777) + #tag + #cbor_len(&self.#ident, __ctx777)
                             }
                         })
                     } else {
@@ -196,7 +196,7 @@ fn on_fields(fields: &Fields, has_self: bool, encoding: Encoding) -> syn::Result
                             + if #is_nil(&self.#i) {
                                 0
                             } else {
-                                #idx.cbor_len(__ctx777) + #tag + #cbor_len(&self.#i, __ctx777)
+                                (#idx as u32).cbor_len(__ctx777) + #tag + #cbor_len(&self.#i, __ctx777)
                             }
                         })
                     }
@@ -205,7 +205,7 @@ fn on_fields(fields: &Fields, has_self: bool, encoding: Encoding) -> syn::Result
                         + if #is_nil(&#ident) {
                             0
                         } else {
-                            #idx.cbor_len(__ctx777) + #tag + #cbor_len(&#ident, __ctx777)
+                            (#idx as u32).cbor_len(__ctx777) + #tag + #cbor_len(&#ident, __ctx777)
                         }
                     })
                 }
